@@ -69,6 +69,21 @@ def setup():
         _installed = True
 
 
+class NullLogger:
+    """ cheap stand-in for the Mock(spec=Logger) of the test fixtures (a Mock records every call: very slow) """
+    level = 20
+    handlers = []
+
+    def _noop(self, *args, **kwargs):
+        return None
+
+    def __getattr__(self, name):
+        return self._noop
+
+
+NULL_LOGGER = NullLogger()
+
+
 def make_supvisors(options=None):
     """ a MockedSupvisors (real options/mapper/context/state_modes, mocked starter/stopper/fsm...) """
     setup()
@@ -76,7 +91,12 @@ def make_supvisors(options=None):
     from supvisors.internal_com.mapper import LocalNetwork
     opts = dict(DICT_OPTIONS)
     opts.update(options or {})
-    supv = MockedSupvisors(DummySupervisor(), opts)
+    class FastSupvisors(MockedSupvisors):
+        def __setattr__(self, name, value):
+            if name == 'logger':
+                value = NULL_LOGGER
+            object.__setattr__(self, name, value)
+    supv = FastSupvisors(DummySupervisor(), opts)
     for sup_id in supv.mapper.instances.values():
         sup_id.local_view = LocalNetwork(supv.logger)
         machine_id = '01:23:45:67:89:ab' if int(sup_id.ip_address.split('.')[-1]) % 2 else 'ab:cd:ef:01:23:45'
